@@ -319,7 +319,7 @@ func (oc *outsChecker) checkFile(outPath string, exp, act interface{}, where str
 func (r *Run) CheckOutsDir(prog *Prog, expAll interface{}, add func(oracle, msg string)) *outsChecker {
 	oc := &outsChecker{r: r, p: prog, refs: map[string]int{}, add: add, kinds: map[string]int{}}
 	top := prog.Pipeline(prog.Top.Callee)
-	raw, err := os.ReadFile(path.Join(r.PsDir, top.Name, "fork0", "_outs"))
+	raw, err := r.readMeta(path.Join(top.Name, "fork0", "_outs"))
 	if err != nil {
 		add("top-outs-unreadable", err.Error())
 		return oc
@@ -462,6 +462,12 @@ func c13Case(c *Ctx) {
 		fcfg.MaxLen = 10 + c.Plan.Draw(3) // array element names cross the decimal width boundary
 	}
 	flags := append(baseFlags(c.Plan), "--vdrmode="+mode)
+	if c.Plan.Draw(4) == 0 {
+		// the metadata files are archived into _metadata.zip once everything else is
+		// done; a restarted mrp unpacks them again before it repeats the post-processing
+		flags = append(flags, "--zip")
+		c.Res.Probes["runs-with-zip"]++
+	}
 	outKinds := c.Plan.Draw(3) > 0
 	linkDirs := c.Plan.Draw(4) == 0
 	dirOuts := c.Plan.Draw(3) == 0
@@ -527,6 +533,8 @@ func c13Case(c *Ctx) {
 			s["vdrmode"] = mode
 			if b, err := os.ReadFile(path.Join(r.PsDir, prog.Top.Callee, "fork0", "_outs")); err == nil {
 				s["rewritten_outs"] = string(b)
+			} else {
+				s["rewritten_outs"] = "(not on disk: " + err.Error() + ")"
 			}
 			s["expected_top_values"] = Show(expTop)
 			var tree []string
